@@ -167,6 +167,8 @@ let monitors : (string * (config -> n list -> n list option -> bool)) list = [
   ("C05", ok_C05);
   ("C06", ok_C06);
   ("C12", ok_C12);
+  ("C16udp", ok_C16_udp);
+  ("C16udp_strict", ok_C16_udp_strict);
   ("C13udp", ok_C13_udp);
   ("C18udp", ok_C18_udp);
 ]
@@ -174,6 +176,8 @@ let monitors : (string * (config -> n list -> n list option -> bool)) list = [
 (* monitors that also need the reference connection state (first data segment of a TCP flow) *)
 let monitors_st : (string * (config -> ref_state -> n list -> n list option -> bool)) list = [
   ("C07", ok_C07);
+  ("C16tcp", ok_C16_tcp);
+  ("C16tcp_strict", ok_C16_tcp_strict);
   ("C13tcp", ok_C13_tcp);
   ("C18tcp", ok_C18_tcp);
 ]
@@ -249,6 +253,9 @@ let () =
           let e = decode_event ev in
           let t = bytes_of_hex ts in
           Printf.printf "L %s\n" (hex_of_bytes (if fmt = "console" then render_console t e else render_logfmt t e))
+        | "CLS16" :: f :: _ ->
+          (* C16: is the frame an in-scope RPC call of the known shadowing class? *)
+          Printf.printf "K %d\n" (if c16_class_frame !cfg (bytes_of_hex f) then 1 else 0)
         | "COOKIE" :: k0 :: k1 :: src :: dst :: sp :: dp :: _ ->
           Printf.printf "C %d\n" (int_of_n (cookie (n_of_hex k0) (n_of_hex k1) (bytes_of_hex src)
                                               (bytes_of_hex dst) (n_of_dec sp) (n_of_dec dp)))
